@@ -3,6 +3,7 @@ numpy calls used by features.py; assumed semantics per the NumPy reference, DESI
 import ast
 
 import z3
+from fractions import Fraction
 
 from .engine import (Sym, Unsupported, PyRaise, INT, BOOL, zterm, is_sym, concretize, BoundMethod)
 
@@ -103,8 +104,16 @@ def np_prod(eng, args, kwargs, node):
     return tot
 
 
+POW10 = z3.Function('ten_to_the_power', z3.RealSort(), z3.RealSort())
+
+
 def np_power(eng, args, kwargs, node):
     base, ex = args[0], concretize(args[1])
+    if not is_sym(base) and not isinstance(base, bool) and base == 10:
+        # 10**x: an uninterpreted function of the exponent, for every exponent (the same exponent gives the same value;
+        # nothing else is known - transcendental arithmetic is outside the model)
+        from .engine import REAL, zterm
+        return Sym(POW10(zterm(ex, REAL)), REAL)
     if is_sym(ex) or not isinstance(ex, int) or isinstance(ex, bool):
         raise Unsupported('numpy.power with a symbolic / non-integer exponent')
     tot = 1
